@@ -4,7 +4,7 @@
    leaves behind -- after success and after an injected failure -- is decided by the whole-IR validator of harness/c05.py. *)
 From Coq Require Import ZArith List Bool Arith.
 From GR Require Import Base.Result Adt.RefCache Adt.RefCacheProofs Adt.RetCache Adt.RetCacheProofs
-     IR.State IR.Modify IR.Edit IR.BytesProofs IR.Closed.
+     IR.State IR.Modify IR.Edit IR.BytesProofs IR.Closed IR.Flow.
 Import ListNotations.
 Open Scope Z_scope.
 
@@ -31,3 +31,16 @@ Theorem C05_no_symbol_is_stranded :
     refs (RefCache.apply c) = [] /\ Inv (RefCache.apply c) /\
     (forall x, sym_get x (stab (RefCache.apply c)) = abs c x) /\ (forall x, abs (RefCache.apply c) x = abs c x).
 Proof. exact apply_spec. Qed.
+
+(* closedness of the CFG where blocks leave the module: after join_blocks no edge mentions block2, after remove_block no edge
+   mentions the removed block (statements and side conditions as in C03) *)
+Theorem C05_no_edge_at_a_joined_block :
+  forall s b1 b2 zero1, b1 <> b2 -> forall x, In x (cfg (join_cfg s b1 b2 true zero1)) -> nid (src x) <> b2 /\ nid (tgt x) <> b2.
+Proof. intros s b1 b2 z H x Hx. destruct (join_cfg_leaves_no_edge_at_block2 s b1 b2 z H x Hx) as (A & B & _). auto. Qed.
+Theorem C05_no_edge_at_a_removed_block :
+  forall s b tp s',
+    remove_block s b tp = Ok (true, s') -> is_code s b = true -> (b < next s)%nat ->
+    snd (adjacent_blocks s b) <> Some b ->
+    ((exists e, In e (out_edges s b) /\ is_call e = true) -> ~ has_ret s b) ->
+    forall x, In x (cfg s') -> nid (src x) <> b /\ nid (tgt x) <> b.
+Proof. exact remove_block_leaves_no_edge. Qed.
